@@ -350,9 +350,9 @@ def run(eng, R):
           what="projected pointwise uncertainty = sqrt(y error^2 + (x error x slope)^2)")
     xin = _gf(p, "XYFit", "_init_nexus")
     xsrc = common.src_of(xin.node)
-    R.ob("H-proj", "XYFit._init_nexus:total_cov_mat", "func=self._project_cov_mat, func_name='total_cov_mat', par_names=['x_total_cov_mat', 'y_total_cov_mat', 'x_model', 'parameter_values']" in xsrc, eng.where(xin),
+    R.ob("H-proj", "XYFit._init_nexus:total_cov_mat", "self._nexus.add_function(self._project_cov_mat, 'total_cov_mat', ['x_total_cov_mat', 'y_total_cov_mat', 'x_model', 'parameter_values']" in xsrc, eng.where(xin),
          "the projected covariance node must receive the total x and y covariance matrices, the x values and the current parameters, in this order")
-    R.ob("H-proj", "XYFit._init_nexus:total_error", "func=self._project_error, func_name='total_error', par_names=['x_total_error', 'y_total_error', 'x_model', 'parameter_values']" in xsrc, eng.where(xin),
+    R.ob("H-proj", "XYFit._init_nexus:total_error", "self._nexus.add_function(self._project_error, 'total_error', ['x_total_error', 'y_total_error', 'x_model', 'parameter_values']" in xsrc, eng.where(xin),
          "the projected error node must receive the total x and y errors, the x values and the current parameters, in this order")
     check_lambda(eng, R, "H-proj", "FitBase", "_init_nexus", "_error", "sqrt(ARG0 ** 2 + ARG1 ** 2)", "total pointwise uncertainty = model and data uncertainties in quadrature")
     check_lambda(eng, R, "H-proj", "FitBase", "_init_nexus", "_mat_name", "ARG0 + ARG1", "total covariance = model covariance + data covariance")
